@@ -421,6 +421,8 @@ class S256Point(Point):
             return cls(x=x, y=y)
         if sec_bin[0] not in (2, 3):
             raise ValueError(f"Unknown SEC prefix {sec_bin[0]}")
+        if len(sec_bin) != 33:
+            raise ValueError("a compressed SEC pubkey is 33 bytes")
         is_even = sec_bin[0] == 2
         x = S256Field(int(sec_bin[1:].hex(), 16))
         # right side of the equation y^2 = x^3 + 7
